@@ -29,5 +29,20 @@ for p in $props; do
     git -C "$WT" checkout -- . >/dev/null 2>&1; git -C "$WT" clean -fdq >/dev/null 2>&1
   done
 done
+# benign corpus: behaviour-preserving or property-preserving edits that must NOT raise an alarm
+for p in $props; do
+  for m in "$VERIF"/selftest/benign/$p/*.diff; do
+    [ -f "$m" ] || continue
+    n=$((n+1))
+    if ! git -C "$WT" apply "$m" 2>/dev/null; then echo "SELFTEST $p benign $(basename $m): patch does not apply"; fail=1; continue; fi
+    out=$(GOVC_REPO="$WT" GOVC_VERIF="$OUT" "$VERIF/bin/govc" check "$p" --tier quick 2>&1); rc=$?
+    if [ $rc -eq 0 ] && ! echo "$out" | grep -q "^VIOLATION"; then
+      echo "SELFTEST $p benign $(basename $m): quiet"
+    else
+      echo "SELFTEST $p benign $(basename $m): FALSE ALARM (exit $rc)"; echo "$out" | grep '^VIOLATION' | head -3; fail=1
+    fi
+    git -C "$WT" checkout -- . >/dev/null 2>&1; git -C "$WT" clean -fdq >/dev/null 2>&1
+  done
+done
 echo "selftest: $n mutants, fail=$fail"
 exit $fail
